@@ -175,6 +175,12 @@ variable (a b : Bool) (i j : Int)
 @[simp] theorem pyNe_int_none : pyNe (.int i) .none = .bool true := rfl
 @[simp] theorem pyNe_none_int : pyNe .none (.int i) = .bool true := rfl
 @[simp] theorem pyNe_int_int : pyNe (.int i) (.int j) = .bool (i != j) := rfl
+@[simp] theorem pyEq_str_str (s t : String) : pyEq (.str s) (.str t) = .bool (s == t) := rfl
+@[simp] theorem pyNe_str_str (s t : String) : pyNe (.str s) (.str t) = .bool (s != t) := rfl
+@[simp] theorem pyEq_str_exc (s e : String) : pyEq (.str s) (.exc e) = .exc e := rfl
+@[simp] theorem pyNe_str_exc (s e : String) : pyNe (.str s) (.exc e) = .exc e := rfl
+@[simp] theorem pyCatchAttr_bool (b : Bool) (h : PV) : pyCatchAttr (.bool b) h = .bool b := rfl
+@[simp] theorem pyCatchAttr_attr (h : PV) : pyCatchAttr (.exc "AttributeError") h = h := rfl
 @[simp] theorem pyTruthy_none : pyTruthy .none = false := rfl
 @[simp] theorem pyTruthy_int : pyTruthy (.int i) = (i != 0) := rfl
 end
@@ -355,6 +361,131 @@ theorem leafRule_eq (s o : Node) :
     ((leafRule s o).1.flags, (leafRule s o).2) = leafRuleFlags s.flags o.flags := by
   simp only [leafRule, leafRuleFlags]
   split <;> simp [propagate_flags, setFlags_flags]
+
+
+/-! ### `FunctionNode.ayns.on_merge_impl`: the decision of `funcMerge` on flags and names -/
+
+/-- what `funcMerge` decides before (or instead of) entering the composed merge: `done` — the merge ends here with
+    these flags / target name / children cleared or kept; `fall` — it falls through to the composed merge with
+    this target name and the children cleared or kept -/
+inductive FuncOut where
+  | done (fl : Flags) (func : String) (cleared : Bool)
+  | fall (func : String) (cleared : Bool)
+
+/-- `sf`, `f`: flags and target of `self`; `of`, `odd`: flags and class default of `other`; `ostr`: `str(other)` when
+    `other` is a string node; `ofunc`: `other._func` when `other` is a function node -/
+def funcDecision (sf : Flags) (f : String) (of : Flags) (odd : Bool) (ostr : Option String) (ofunc : Option String) : FuncOut :=
+  match ostr with
+  | some s =>
+    if hasPrio of sf true then
+      if s != f then .done (replaceSelfFlags sf of) s true else .done (replaceSelfFlags sf of) f false
+    else .done (replaceOtherFlags sf of) f false
+  | none =>
+    match ofunc with
+    | none => .fall f false
+    | some g =>
+      if f != g then
+        if !hasPrio of sf true then .done (replaceOtherFlags sf of) f false
+        else .fall g (eDelF of odd)
+      else .fall f false
+
+/-- `str(other)` when `other` is a string node -/
+def _root_.AY.Node.strOf : Node → Option String
+  | .leaf _ lk => if lk.isStr then some lk.strVal else none
+  | .comp .. => none
+
+/-- `other._func` when `other` is a function node -/
+def _root_.AY.Node.funcOf : Node → Option String
+  | .leaf .. => none
+  | .comp _ ok _ => ok.func?
+
+theorem setFunc_self (sk : CompKind) (f : String) (h : sk.func? = some f) : sk.setFunc f = sk := by
+  cases sk <;> simp_all [CompKind.func?, CompKind.setFunc]
+
+/-- `funcMerge` is its decision followed by the end of the merge or by the composed merge -/
+theorem funcMerge_eq (rec : Node → Node → Except Err (Node × Bool)) (sf : Flags) (sk : CompKind) (f : String)
+    (scs : List (Key × Node)) (o : Node) (hsk : sk.func? = some f) :
+    funcMerge rec sf sk f scs o =
+      match funcDecision sf f o.flags o.defaultDel o.strOf o.funcOf with
+      | .done fl g c => .ok (propagate (.comp fl (sk.setFunc g) (if c then [] else scs)), true)
+      | .fall g c => compMerge rec sf (sk.setFunc g) (if c then [] else scs) o := by
+  have hs := setFunc_self sk f hsk
+  cases o with
+  | leaf of lk =>
+    simp only [funcMerge, funcDecision, Node.strOf, Node.funcOf, Node.flags]
+    by_cases h1 : lk.isStr = true
+    · simp only [h1, if_true]
+      by_cases h2 : hasPrio of sf true = true
+      · simp only [h2, if_true]
+        by_cases h3 : (lk.strVal != f) = true
+        · simp [h3]
+        · simp [h3, hs]
+      · simp [h2, hs]
+    · simp [h1, hs]
+  | comp of ok ocs =>
+    simp only [funcMerge, funcDecision, Node.strOf, Node.funcOf, Node.flags]
+    cases hg : ok.func? with
+    | none => simp [hs]
+    | some g =>
+      simp only []
+      rw [show (f != g) = (g != f) from by
+        by_cases h : f = g
+        · subst h; rfl
+        · have h' : ¬ g = f := fun e => h e.symm
+          have e1 : (f != g) = true := by simpa [bne] using h
+          have e2 : (g != f) = true := by simpa [bne] using h'
+          rw [e1, e2]]
+      by_cases h3 : (g != f) = true
+      · simp only [h3, if_true]
+        by_cases h2 : hasPrio of sf true = true
+        · simp only [h2, eDel_eq, Node.flags, Node.defaultDel, Bool.not_true, Bool.false_eq_true, if_false]
+          rcases Bool.eq_false_or_eq_true (eDelF of (defaultDelete ok)) with hd | hd <;> simp [hd]
+        · simp [h2, hs]
+      · simp [h3, hs]
+
+def encOStr : Option String → PV
+  | some s => .str s
+  | none => .none
+@[simp] theorem encOStr_some (s : String) : encOStr (some s) = .str s := rfl
+@[simp] theorem encOStr_none : encOStr none = .none := rfl
+
+/-- the value of `other._func`: the target of a function node, AttributeError for any other node -/
+def encFuncAttr : Option String → PV
+  | some g => .str g
+  | none => .exc "AttributeError"
+@[simp] theorem encFuncAttr_some (s : String) : encFuncAttr (some s) = .str s := rfl
+@[simp] theorem encFuncAttr_none : encFuncAttr none = .exc "AttributeError" := rfl
+
+/-- a node object: the flags plus the attribute `_func` -/
+def encNodeObj (f : Flags) (dd : Bool) (func : PV) : Obj := Obj.set (encFlags f dd) "_func" func
+
+/-- what is compared of a decision: who is returned, the observable flags and the target of `self`, the recorded calls -/
+def FuncOut.view (sf : Flags) (dd : Bool) : FuncOut → String × List PV × PV × List String
+  | .done fl g c => ("self", obs (encFlags fl dd), .str g, if c then ["self.clear()"] else [])
+  | .fall g c => ("fallthrough", obs (encFlags sf dd), .str g,
+                  (if c then ["self.clear()"] else []) ++ ["super.on_merge_impl(_, other)"])
+
+@[simp] theorem FuncOut.view_done (sf : Flags) (dd : Bool) (fl : Flags) (g : String) (c : Bool) :
+    (FuncOut.done fl g c).view sf dd = ("self", obs (encFlags fl dd), .str g, if c then ["self.clear()"] else []) := rfl
+@[simp] theorem FuncOut.view_fall (sf : Flags) (dd : Bool) (g : String) (c : Bool) :
+    (FuncOut.fall g c).view sf dd = ("fallthrough", obs (encFlags sf dd), .str g,
+      (if c then ["self.clear()"] else []) ++ ["super.on_merge_impl(_, other)"]) := rfl
+@[simp] theorem FuncOut.view_ite (sf : Flags) (dd : Bool) (p : Prop) [Decidable p] (a b : FuncOut) :
+    (if p then a else b).view sf dd = if p then a.view sf dd else b.view sf dd := by split <;> rfl
+
+def decStr : PV → String
+  | .str s => s
+  | _ => ""
+def decFuncAttr : PV → Option String
+  | .str s => some s
+  | _ => none
+@[simp] theorem decFuncAttr_enc (x : Option String) : decFuncAttr (encFuncAttr x) = x := by cases x <;> rfl
+@[simp] theorem decFlags_encNodeObj (f : Flags) (dd : Bool) (v : PV) : decFlags (encNodeObj f dd v) = f := by
+  simp [decFlags, encNodeObj, Obj.set, decB]
+@[simp] theorem decDD_encNodeObj (f : Flags) (dd : Bool) (v : PV) : decDD (encNodeObj f dd v) = dd := by
+  simp [decDD, encNodeObj, Obj.set, decB]
+@[simp] theorem encNodeObj_func (f : Flags) (dd : Bool) (v : PV) : encNodeObj f dd v "_func" = v := by
+  simp [encNodeObj, Obj.set]
 
 /-- the decision of `_maybe_promote` in terms of the class relations (what the model's `maybePromote` does with them) -/
 def promoteDecision (same selfC otherC otherSubSelf selfSubOther selfPlain otherPlain otherIsList : Bool) : RefRes :=
